@@ -91,7 +91,7 @@ structure Evalr (ρ : Type) where
 
 structure St (ρ : Type) where
   geo : Ctx := {}
-  originals : List (Str × Elem) := []
+  originals : List (Str × Elem × Option Nodes) := []
   scopes : List Scope := []
   elemStack : List Elem := []
   depth : Nat := 0
@@ -171,11 +171,11 @@ def updateElement (ev : Evalr ρ) (st : St ρ) (e : Elem) : St ρ :=
       | .error _ => i
     let known := (Attrs.lookupTable st.originals i).isSome
     { st with geo := { st.geo with elems := (i, e) :: st.geo.elems.filter (fun kv => kv.1 != i) },
-              originals := if known then st.originals else (i, e) :: st.originals }
+              originals := if known then st.originals else (i, e, none) :: st.originals }
 
 /-- `register_original`: the as-written form becomes the reuse template; the element is NOT made
     available to geometry references (those only ever see resolved elements) -/
-def registerOriginal (ev : Evalr ρ) (st : St ρ) (e : Elem) : St ρ :=
+def registerOriginal (ev : Evalr ρ) (st : St ρ) (e : Elem) (kids : Option Nodes) : St ρ :=
   match e.getAttr cs!"id" with
   | none => st
   | some i =>
@@ -183,7 +183,7 @@ def registerOriginal (ev : Evalr ρ) (st : St ρ) (e : Elem) : St ρ :=
       | .ok (v, _) => v
       | .error _ => i
     let known := (Attrs.lookupTable st.originals i).isSome
-    { st with originals := if known then st.originals else (i, e) :: st.originals }
+    { st with originals := if known then st.originals else (i, e, kids) :: st.originals }
 
 def setPrev (st : St ρ) (e : Elem) : St ρ := { st with geo := { st.geo with prev := some e } }
 
@@ -466,9 +466,85 @@ def clipPost (ev : Evalr ρ) (e : Elem) (x : St ρ × Res) : St ρ × Res :=
   | _ => x
 
 def registerEarly (ev : Evalr ρ) (st : St ρ) (n : Node) : St ρ :=
-  match tagElem n with
-  | some e => registerOriginal ev st e
-  | none => st
+  match n with
+  | .elem e kids _ => registerOriginal ev st e kids
+  | _ => st
+
+/-- the attribute part of `ReuseElement::generate_events`: the reuse element's attributes override the
+    defaults of the copy (except href / id / x / y; a transform is appended), the copy takes the reuse
+    element's id, style and classes, the template's id becomes a class, a symbol becomes a group -/
+def reuseOverride (re inst : Elem) : Elem :=
+  re.attrs.foldl (fun (acc : Elem) (kv : Str × Str) =>
+      if kv.1 == cs!"href" || kv.1 == cs!"id" || kv.1 == ['x'] || kv.1 == ['y'] then acc
+      else if kv.1 == cs!"transform" then
+        acc.setAttr cs!"transform" (match acc.getAttr cs!"transform" with
+          | some t => t ++ [' '] ++ kv.2
+          | none => kv.2)
+      else if acc.hasAttr kv.1 then acc.setAttr kv.1 kv.2 else acc) inst
+
+/-- the copy loses the template's id (it becomes a class) and takes the reuse element's id, style, classes -/
+def reuseDress (re inst : Elem) : Elem :=
+  let (inst, refId) := inst.popAttr cs!"id"
+  let inst := match re.getAttr cs!"id" with
+    | some i => inst.setAttr cs!"id" i
+    | none => inst
+  let inst := match re.getAttr cs!"style" with
+    | some s => inst.setAttr cs!"style" s
+    | none => inst
+  let inst := re.classes.foldl (fun (a : Elem) c => a.addClass c) inst
+  match refId with
+  | some r => inst.addClass r
+  | none => inst
+
+def reuseInstance (re inst : Elem) : Elem :=
+  let inst := reuseDress re (reuseOverride re inst)
+  if inst.name == cs!"symbol" then (Elem.new ['g'] []).withAttrsFrom inst else inst
+
+/-- `ReuseElement::generate_events` between pushing the reuse element and generating the instance:
+    look up the original, evaluate the copy in the scope of the reuse element, place it -/
+def reusePrepare (ev : Evalr ρ) (st : St ρ) (re : Elem) : St ρ × Except CErr (Elem × Option Nodes) :=
+  match re.getAttr cs!"href" with
+  | none => (st, .error (.geom .missingAttr))
+  | some h =>
+    match parseElref h with
+    | .error er => (st, .error (.geom er))
+    | .ok .prev => ({ st with outside := true }, .error .unsupported)
+    | .ok (.id i) =>
+      match Attrs.lookupTable st.originals i with
+      | none => (st, .error (.geom .reference))
+      | some (orig, kids) =>
+        seq (withRng st (evalAttributes ev st orig.expandCompoundSize)) fun st inst1 =>
+          match inst1.size st.geo with
+          | .error er => (st, .error (.geom er))
+          | .ok sz =>
+            let inst2 := reuseInstance re inst1
+            match re.resolvePosition st.geo with
+            | .error er => (st, .error (.geom er))
+            | .ok re2 =>
+              -- registered only once its own position is resolved
+              let st := if (re2.getAttr cs!"id").isSome then updateElement ev st re2 else st
+              let pos : Position := re2.toPosition
+              let cbb : Option BoundingBox := (st.geo.get (.id i)).bind (·.contentBBox)
+              let pos : Position := match cbb, sz with
+                | some bb, _ => { pos with width := some bb.width, height := some bb.height }
+                | none, some wh => { pos with width := some wh.1, height := some wh.2 }
+                | none, none => pos
+              -- a line is moved as a whole: the offset that brings the top-left of its box to (x, y)
+              let (pos, inst2) : Position × Elem :=
+                if inst2.name == cs!"line" then
+                  let inst3 := inst2.expandCompoundPos
+                  match inst3.bbox with
+                  | .ok (some bb) =>
+                    let pos := match pos.xmin with
+                      | some x => { pos with dx := some (pos.dx.getD 0 + x - bb.x1) }
+                      | none => pos
+                    let pos := match pos.ymin with
+                      | some y => { pos with dy := some (pos.dy.getD 0 + y - bb.y1) }
+                      | none => pos
+                    ({ pos with width := some bb.width, height := some bb.height }, inst3)
+                  | _ => (pos, inst3)
+                else (pos, inst2)
+              (st, .ok (Elem.setPositionAttrs { pos with shape := inst2.name } inst2, kids))
 
 mutual
 
@@ -490,7 +566,7 @@ def dispatch (ev : Evalr ρ) : Nat → St ρ → Elem → Option Nodes → St ρ
       match applyConfig st.cfg e with
       | .ok c => ({ st with cfg := c }, .ok ([], none))
       | .error er => (st, .error er)
-    else if n == cs!"reuse" then ({ st with outside := true }, .error .unsupported)
+    else if n == cs!"reuse" then genReuse ev fuel st e
     else if n == cs!"specs" then genSpecs ev fuel st kids
     else if n == cs!"var" then genVar ev st e
     else if n == cs!"if" then genIf ev fuel st e kids
@@ -501,6 +577,17 @@ def dispatch (ev : Evalr ρ) : Nat → St ρ → Elem → Option Nodes → St ρ
       match kids with
       | some ks => genContainer ev fuel st e ks
       | none => genOther ev st e
+
+/-- `ReuseElement`: the reuse element's attributes are a scope around a fresh copy of the original -/
+def genReuse (ev : Evalr ρ) : Nat → St ρ → Elem → St ρ × Res
+  | 0, st, _ => (st, .error .fuel)
+  | fuel + 1, st, e =>
+    seq (withRng st (evalAttributes ev st e)) fun st re =>
+      popAfter
+        (seq (reusePrepare ev (st.pushElement re) re) fun st1 ik =>
+          match ik.2 with
+          | some ks => processNodes ev fuel st1 (Nodes.cons (.elem ik.1 (some ks) none) .nil)
+          | none => genElem ev fuel st1 ik.1 none)
 
 /-- `SpecsElement`: content is processed for its registrations only -/
 def genSpecs (ev : Evalr ρ) : Nat → St ρ → Option Nodes → St ρ × Res
